@@ -269,9 +269,12 @@ def join_chunks_obligations(R, tier):
     rng = random.Random(R.seed)
     t0 = time.time()
     bad, n = [], 0
-    sizes = (7, 6, 5)          # (nx, ny, nz), non-cubic
+    sizes = (13, 12, 11)       # (nx, ny, nz), non-cubic; origins reach two digits (numeric, not lexicographic, order)
     G = np.arange(sizes[2] * sizes[1] * sizes[0]).reshape(sizes[2], sizes[1], sizes[0])      # [z, y, x], unique tokens
-    for cuts in itertools.product((1, 2, 3), repeat=3):
+    cutsets = list(itertools.product((1, 2, 3), repeat=3)) + [(4, 1, 1), (1, 5, 1), (1, 1, 4), (4, 2, 3), (2, 5, 2), (3, 2, 6), (5, 4, 4), (12, 1, 1), (1, 11, 2)]
+    if tier != 'quick':
+        cutsets += [c_ for c_ in itertools.product((1, 4, 5), repeat=3) if c_ != (1, 1, 1)]
+    for cuts in cutsets:
         boxes = list(itertools.product(etgen.splits(sizes[0], cuts[0]), etgen.splits(sizes[1], cuts[1]), etgen.splits(sizes[2], cuts[2])))
         keys = [(bx[0][0], bx[1][0], bx[2][0]) for bx in boxes]
         nb = len(boxes)
@@ -293,7 +296,7 @@ def join_chunks_obligations(R, tier):
                 out = f'{type(e).__name__}: {e}'
             if not ok:
                 bad.append(f'cuts (x,y,z)={cuts}, key order {[keys[b] for b in order][:6]}: ' + (out if isinstance(out, str) else f'shape {out.shape}'))
-    R.bounded.append(dict(function='aurel.reading.join_chunks', bound=f'{n} cases: 1-3 pieces per axis (chunk counts 1..27) on a 7x6x5 grid, all key orders for <= 4 chunks, sampled beyond; unique cell tokens'))
+    R.bounded.append(dict(function='aurel.reading.join_chunks', bound=f'{n} cases on a 13x12x11 grid: every decomposition with 1-3 pieces per axis plus decompositions with 4-12 pieces on an axis (up to 80 chunks; thorough: {{1,4,5}}^3), all key orders for <= 4 chunks, sampled beyond; unique cell tokens'))
     R.ob('reading.join_chunks:result == global array for every rectilinear decomposition and key order', 'join_chunks',
          'refuted' if bad else 'bounded-ok', 'bounded-native', time.time() - t0, '; '.join(bad[:4]), bad[:8] or None,
          bounded=f'{n} decompositions/orders')
